@@ -89,6 +89,7 @@ MAY_OPEN = {'convert_markup', 'convert_markup_impl', 'convert_comment'}
 LEAF_EXACT = '[leaf_text_exact C10 C08] r@ == txt({n}.text_s())'
 VERBATIM = '[verbatim_when_disabled C07] self.store_s().disabled_s({n}.span_s()) ==> r@ == txt({n}.full_text_s())'
 EXTRA = {
+    'convert_expr_with_optional_paren': {'proof': ['reveal_strlit("("); reveal_strlit(")"); reveal_strlit("{"); reveal_strlit("}"); lemma_optional_paren_words_all(self.unit_s(), "("@, ")"@); lemma_optional_paren_words_all(self.unit_s(), "{"@, "}"@);']},
     'convert_expr': {'ensures': ['[result_is_a_function_of_context_and_node assumed C01] r@ == expr_doc_s(ctx, {n})', VERBATIM, '[leaf_kinds_exact C10 C08] !self.store_s().disabled_s({n}.span_s()) && is_exact_leaf_kind({n}.kind_s()) ==> r@ == txt({n}.text_s())'], 'serves': 'C07 C10'},
     'convert_expr_impl': {'ensures': ['[leaf_kinds_exact C10 C08] is_exact_leaf_kind({n}.kind_s()) ==> r@ == txt({n}.text_s())'], 'serves': 'C10',
                           'proof': ['reveal_strlit("none"); reveal_strlit("auto"); reveal_strlit("break"); reveal_strlit("continue"); pf_loop_kw({n});',
@@ -155,6 +156,7 @@ W_PROVED = {
     'convert_show_rule', 'convert_heading', 'convert_list_item_like', 'convert_math_attach', 'convert_math_frac', 'convert_math_root',
     'convert_import_item_path', 'convert_import_item_renamed', 'convert_binary',
     # wrappers
+    'convert_expr_with_optional_paren', 'convert_field_access',
     'convert_contextual', 'convert_conditional', 'convert_while_loop', 'convert_return', 'convert_include',
     'convert_list_item', 'convert_enum_item', 'convert_term_item',
     # leaves and dispatchers
